@@ -25,8 +25,8 @@ class C13(Scenario):
         "quick": [("local", 4), ("ship", 5), ("restart", 3), ("interrupts", 2)],
         "thorough": [("local", 4), ("ship", 5), ("restart", 4), ("interrupts", 3), ("long", 2)],
     }
-    runs = {"quick": 3000, "thorough": 60000}
-    wall = {"quick": 75, "thorough": 1300}
+    runs = {"quick": 4000, "thorough": 60000}
+    wall = {"quick": 90, "thorough": 1300}
     rule = (
         "one run = one generated pool (expressions, forms, their sub-expressions, equal twins, near-duplicates with one "
         "field changed, counted terminals / meshes re-created with equal explicit count or id) built on 2-3 simulated "
